@@ -21,7 +21,8 @@ TabOf(S, name) == S[CHOOSE i \in 1..Len(S) : S[i].name = name]
 Names(S) == {S[i].name : i \in 1..Len(S)}
 EmptyDb(S) == [n \in Names(S) |-> {}]
 
-Proj(row, cols) == [i \in 1..Len(cols) |-> row[cols[i]]]
+\* a column beyond the fields stored in the row (added to the table later) reads as empty
+Proj(row, cols) == [i \in 1..Len(cols) |-> IF cols[i] <= Len(row) THEN row[cols[i]] ELSE 0]
 AllZero(k) == \A i \in 1..Len(k) : k[i] = 0
 IxKey(ixd, row) == Proj(row, ixd.cols)
 EntryKey(ixd, row) ==
